@@ -1,6 +1,10 @@
-(* Proofs about Impl/SchemaText.v, part 1 of 2: the lexer.
+(* Proofs about Impl/SchemaText.v, part 1 of 2: the lexer, and totality of the parser.
    [rd s] is what parser.readToken does on the unread input [s]; this file gives the rewrite rules for [rd] on everything the
-   printer emits: blanks, punctuation, identifier-shaped words, quoted strings (quote_cedar). *)
+   printer emits: blanks, punctuation, identifier-shaped words, quoted strings (quote_cedar); the byte-level reading of
+   isValidIdent and strings.Split(_, "::"); and, at the end,
+     parse_schema_total : forall src, parse_schema src <> SFuel
+   (the lexer never runs out of fuel and every token but EOF consumes input; every re-entry of a recursive parser function is
+   preceded by the consumption of a token, up to a constant). *)
 From Coq Require Import String.
 From Coq Require Import ZArith List Bool Lia Arith.
 Import ListNotations.
@@ -452,3 +456,481 @@ Proof. intros st K <-. unfold is, tk. destruct (k_type (p_tok st)); reflexivity.
 Lemma rd_kw : forall (w : string) ty s, word (s_of w) = true -> (if is_reserved (s_of w) then KReserved else KIdent) = ty ->
   stopb s = true -> rd (s_of w ++ s) = SOk (MkSt (mk_tok ty (s_of w)) s).
 Proof. intros w ty s Hw <- Hs. apply rd_word; assumption. Qed.
+
+(* ------------------------------------------------------------------------------------------ *)
+(* The lexer never runs out of fuel, and every token but EOF consumes input                    *)
+(* ------------------------------------------------------------------------------------------ *)
+Lemma skip_line_nofuel : forall f s, (length s < f)%nat -> skip_line f s <> LFuel.
+Proof.
+  induction f as [|f IH]; intros s H; [lia|]. cbn [skip_line]. destruct s as [|b s]; [discriminate|].
+  destruct (lx_peek (b :: s) =? 10); [discriminate|]. pose proof (lx_advance_lt b s). apply IH. lia.
+Qed.
+
+Lemma skip_block_nofuel : forall f s, (length s < f)%nat -> skip_block f s <> LFuel.
+Proof.
+  induction f as [|f IH]; intros s H; [lia|]. cbn [skip_block]. destruct s as [|b s]; [discriminate|].
+  destruct ((lx_peek (b :: s) =? 42) && byte1_is (b :: s) 47); [discriminate|]. pose proof (lx_advance_lt b s). apply IH. lia.
+Qed.
+
+Lemma skip_ws_nofuel : forall f s, (length s < f)%nat -> skip_ws f s <> LFuel.
+Proof.
+  induction f as [|f IH]; intros s H; [lia|]. cbn [skip_ws]. destruct s as [|b s]; [discriminate|]. cbv zeta.
+  pose proof (lx_advance_lt b s) as Hlt. pose proof (lx_advance_le (lx_advance (b :: s))) as Hle.
+  destruct (is_space (lx_peek (b :: s))); [apply IH; lia|].
+  destruct ((lx_peek (b :: s) =? 47) && byte1_is (b :: s) 47).
+  { destruct (skip_line (S f) (lx_advance (lx_advance (b :: s)))) as [s'| |] eqn:E; [|discriminate|].
+    - apply skip_line_len in E. apply IH. lia.
+    - exfalso. revert E. apply skip_line_nofuel. lia. }
+  destruct ((lx_peek (b :: s) =? 47) && byte1_is (b :: s) 42); [|discriminate].
+  destruct (skip_block (S f) (lx_advance (lx_advance (b :: s)))) as [s'| |] eqn:E; [|discriminate|].
+  - apply skip_block_len in E. apply IH. lia.
+  - exfalso. revert E. apply skip_block_nofuel. lia.
+Qed.
+
+Lemma scan_ident_loop_spec : forall f start n s, (length s < f)%nat ->
+  match scan_ident_loop f start n s with LOk (_, s') => (length s' <= length s)%nat | LErr => True | LFuel => False end.
+Proof.
+  induction f as [|f IH]; intros start n s H; [lia|]. cbn [scan_ident_loop]. destruct s as [|b s]; [cbn; lia|].
+  destruct (is_ident_continue (lx_peek (b :: s))); [|lia].
+  pose proof (lx_advance_lt b s) as Hlt. specialize (IH start (n + lx_width (b :: s))%nat (lx_advance (b :: s)) ltac:(lia)).
+  destruct (scan_ident_loop f start (n + lx_width (b :: s)) (lx_advance (b :: s))) as [[t s']| |]; [lia|exact I|exact IH].
+Qed.
+
+Lemma scan_string_loop_spec : forall f start n s, (length s < f)%nat ->
+  match scan_string_loop f start n s with LOk (_, s') => (length s' <= length s)%nat | LErr => True | LFuel => False end.
+Proof.
+  induction f as [|f IH]; intros start n s H; [lia|]. cbn [scan_string_loop]. destruct s as [|b s]; [exact I|]. cbv zeta.
+  pose proof (lx_advance_lt b s) as Hlt.
+  destruct (lx_peek (b :: s) =? 34).
+  { destruct (unquote (firstn n start) false) as [[u r]|]; [lia|exact I]. }
+  destruct (lx_peek (b :: s) =? 10); [exact I|].
+  destruct (lx_peek (b :: s) =? 92).
+  - destruct (lx_advance (b :: s)) as [|b' s'] eqn:E; [exact I|]. pose proof (lx_advance_lt b' s') as Hlt'.
+    match goal with |- match scan_string_loop f ?a ?b ?c with _ => _ end => specialize (IH a b c ltac:(lia)); destruct (scan_string_loop f a b c) as [[t s2]| |] end;
+      [lia|exact I|exact IH].
+  - match goal with |- match scan_string_loop f ?a ?b ?c with _ => _ end => specialize (IH a b c ltac:(lia)); destruct (scan_string_loop f a b c) as [[t s2]| |] end;
+      [lia|exact I|exact IH].
+Qed.
+
+Lemma lex_next_spec : forall s,
+  match lex_next s with
+  | LOk (t, s') => (length s' <= length s)%nat /\ (k_type t <> KEOF -> (length s' < length s)%nat)
+  | LErr => True
+  | LFuel => False
+  end.
+Proof.
+  intros s. unfold lex_next, lex_next_fuel.
+  destruct (skip_ws (S (length s)) s) as [s1| |] eqn:E; [|exact I|exfalso; revert E; apply skip_ws_nofuel; lia].
+  apply skip_ws_len in E. destruct s1 as [|b s1]; [cbn; split; [lia|intros H; congruence]|]. cbv zeta.
+  pose proof (lx_advance_lt b s1) as Hlt. pose proof (lx_advance_le (lx_advance (b :: s1))) as Hle.
+  destruct (is_ident_start (lx_peek (b :: s1))).
+  { unfold scan_ident. pose proof (scan_ident_loop_spec (S (length s)) (b :: s1) (lx_width (b :: s1)) (lx_advance (b :: s1)) ltac:(lia)) as H.
+    destruct (scan_ident_loop _ _ _ _) as [[t s']| |]; [split; [lia|intros _; lia]|exact I|exact H]. }
+  destruct (lx_peek (b :: s1) =? 34).
+  { unfold scan_string. cbv zeta.
+    pose proof (scan_string_loop_spec (S (length s)) (lx_advance (b :: s1)) 0 (lx_advance (b :: s1)) ltac:(lia)) as H.
+    destruct (scan_string_loop _ _ _ _) as [[t s']| |]; [split; [lia|intros _; lia]|exact I|exact H]. }
+  repeat match goal with |- match (if ?c then _ else _) with _ => _ end => destruct c end; try exact I; cbn [k_type mk_tok]; split; try lia; intros _; lia.
+Qed.
+
+(* ------------------------------------------------------------------------------------------ *)
+(* The parser never runs out of fuel                                                           *)
+(* ------------------------------------------------------------------------------------------ *)
+(* what is left to read: the unread bytes, plus one for a current token that is not EOF *)
+Definition msr (st : pst) : nat := (length (p_src st) + (if is st KEOF then 0 else 1))%nat.
+
+Definition Gp (st : pst) (k : nat) (r : spres pst) : Prop :=
+  match r with SFuel => False | SOk st' => (msr st' + k <= msr st)%nat | _ => True end.
+Definition G {A : Type} (st : pst) (k : nat) (r : spres (A * pst)) : Prop :=
+  match r with SFuel => False | SOk (_, st') => (msr st' + k <= msr st)%nat | _ => True end.
+
+Lemma T_read : forall st, Gp st (if is st KEOF then 0 else 1) (read_token st).
+Proof.
+  intros st. unfold Gp, read_token. pose proof (lex_next_spec (p_src st)) as H.
+  destruct (lex_next (p_src st)) as [[t s']| |]; [|exact I|exact H]. destruct H as [H1 H2].
+  unfold msr. cbn [p_src p_tok]. unfold is at 1. cbn [p_tok].
+  destruct (ttype_beq (k_type t) KEOF) eqn:E.
+  - destruct (is st KEOF); lia.
+  - assert (Hne : k_type t <> KEOF) by (intros Hk; rewrite Hk in E; discriminate). specialize (H2 Hne). destruct (is st KEOF); lia.
+Qed.
+
+Lemma is_tk_eq : forall st K, is st K = true -> k_type (p_tok st) = K.
+Proof. intros st K H. unfold is in H. destruct (k_type (p_tok st)), K; try discriminate; reflexivity. Qed.
+
+Lemma not_eof : forall st K, is st K = true -> K <> KEOF -> is st KEOF = false.
+Proof. intros st K H Hne. apply is_tk_eq in H. unfold is. rewrite H. destruct K; try reflexivity. contradiction. Qed.
+
+Local Notation "x <- e ;; f" := (sbind e (fun x => f)) (at level 61, e at next level, right associativity).
+Local Notation "' p <- e ;; f" := (sbind e (fun p => f)) (at level 61, p pattern, e at next level, right associativity).
+
+(* use a fact [H : G st k (call)] or [Gp st k (call)] about a call occurring in the goal: case on its result *)
+Ltac head_call X := match X with sbind ?e _ => head_call e | _ => X end.
+Ltac use H n :=
+  let F := fresh "F" in
+  pose proof H as F;
+  match goal with
+  | |- G _ _ ?X => let e := head_call X in
+      (match type of F with
+       | G ?s ?k _ => change (G s k e) in F; revert F; destruct e as [[? n]| | |]
+       | Gp ?s ?k _ => change (Gp s k e) in F; revert F; destruct e as [n| | |]
+       end)
+  | |- Gp _ _ ?X => let e := head_call X in
+      (match type of F with
+       | G ?s ?k _ => change (G s k e) in F; revert F; destruct e as [[? n]| | |]
+       | Gp ?s ?k _ => change (Gp s k e) in F; revert F; destruct e as [n| | |]
+       end)
+  end; cbn [G Gp sbind]; intros F; try exact I; try contradiction.
+(* [is st KEOF = false] from a positive test on the current token *)
+Ltac eofc st :=
+  match goal with
+  | H : is st KEOF = false |- _ => idtac
+  | H : is st ?K = true |- _ => assert (is st KEOF = false) by (apply (not_eof st K H); discriminate)
+  end.
+(* read a token from a state known not to be at EOF *)
+Ltac rdne st n :=
+  eofc st;
+  let F := fresh "F" in
+  pose proof (T_read st) as F;
+  match goal with H : is st KEOF = false |- _ => rewrite H in F end;
+  revert F; destruct (read_token st) as [n| | |]; cbn [Gp sbind]; intros F; try exact I; try contradiction.
+Ltac fin := cbn [G Gp]; first [exact I | lia].
+
+Lemma T_expect : forall K st, K <> KEOF -> Gp st 1 (expect K st).
+Proof.
+  intros K st HK. unfold expect. destruct (is st K) eqn:E; [|exact I].
+  assert (is st KEOF = false) by (apply (not_eof st K E); exact HK). rdne st st1. fin.
+Qed.
+
+Lemma T_opt_comma : forall st, Gp st 0 (opt_comma st).
+Proof. intros st. unfold opt_comma. destruct (is st KComma) eqn:E; [rdne st st1; fin|fin]. Qed.
+
+Lemma or_not_eof : forall st K1 K2, is st K1 || is st K2 = true -> K1 <> KEOF -> K2 <> KEOF -> is st KEOF = false.
+Proof. intros st K1 K2 H H1 H2. apply orb_true_iff in H. destruct H as [H|H]; [exact (not_eof st K1 H H1)|exact (not_eof st K2 H H2)]. Qed.
+
+Lemma T_annots : forall fuel acc st, (2 * msr st + 1 <= fuel)%nat -> G st 0 (parse_annotations fuel acc st).
+Proof.
+  induction fuel as [|f IH]; intros acc st Hf; [lia|]. cbn [parse_annotations].
+  destruct (is st KAt) eqn:EAt; cbn [negb]; [|fin]. rdne st st1.
+  destruct (is st1 KIdent || is st1 KReserved) eqn:E1; cbn [negb]; [|fin].
+  assert (is st1 KEOF = false) by (apply (or_not_eof st1 _ _ E1); discriminate). rdne st1 st2.
+  destruct (is st2 KLParen) eqn:E2.
+  - rdne st2 st3. destruct (is st3 KString) eqn:E3; cbn [negb]; [|fin]. rdne st3 st4.
+    use (T_expect KRParen st4 ltac:(discriminate)) st5. destruct (has_key (txt st1) acc); [fin|].
+    use (IH (rec_insert (txt st1) (txt st3) acc) st5 ltac:(lia)) st6. fin.
+  - cbn [sbind]. destruct (has_key (txt st1) acc); [fin|]. use (IH (rec_insert (txt st1) [] acc) st2 ltac:(lia)) st3. fin.
+Qed.
+
+Lemma T_path_rest : forall fuel path st, (2 * msr st + 1 <= fuel)%nat -> G st 0 (path_rest fuel path st).
+Proof.
+  induction fuel as [|f IH]; intros path st Hf; [lia|]. cbn [path_rest].
+  destruct (is st KDoubleColon) eqn:E; cbn [negb]; [|fin]. rdne st st1.
+  destruct (is st1 KIdent) eqn:E1; cbn [negb]; [|fin]. rdne st1 st2.
+  use (IH (path ++ dcolon ++ txt st1) st2 ltac:(lia)) st3. fin.
+Qed.
+
+Lemma pso_not_eof : forall st, path_start_ok st = true -> is st KEOF = false.
+Proof.
+  intros st H. unfold path_start_ok in H. apply orb_true_iff in H. destruct H as [H|H]; [exact (not_eof st _ H ltac:(discriminate))|].
+  apply andb_true_iff in H. destruct H as [H _]. exact (not_eof st _ H ltac:(discriminate)).
+Qed.
+
+Lemma T_parse_path : forall fuel st, (2 * msr st + 1 <= fuel)%nat -> G st 1 (parse_path fuel st).
+Proof.
+  intros fuel st Hf. unfold parse_path. destruct (path_start_ok st) eqn:E; cbn [negb]; [|fin].
+  pose proof (pso_not_eof st E). rdne st st1. use (T_path_rest fuel (txt st) st1 ltac:(lia)) st2. fin.
+Qed.
+
+Lemma T_path_ref_rest : forall fuel path st, (2 * msr st + 1 <= fuel)%nat -> G st 0 (path_ref_rest fuel path st).
+Proof.
+  induction fuel as [|f IH]; intros path st Hf; [lia|]. cbn [path_ref_rest].
+  destruct (is st KDoubleColon) eqn:E; cbn [negb]; [|fin]. rdne st st1.
+  destruct (is st1 KString) eqn:E1; [rdne st1 st2; fin|].
+  destruct (is st1 KIdent) eqn:E2; cbn [negb]; [|fin]. rdne st1 st2.
+  use (IH (path ++ dcolon ++ txt st1) st2 ltac:(lia)) st3. fin.
+Qed.
+
+Lemma T_parse_path_for_ref : forall fuel st, (2 * msr st + 1 <= fuel)%nat -> G st 1 (parse_path_for_ref fuel st).
+Proof.
+  intros fuel st Hf. unfold parse_path_for_ref. destruct (path_start_ok st) eqn:E; cbn [negb]; [|fin].
+  pose proof (pso_not_eof st E). rdne st st1. use (T_path_ref_rest fuel (txt st) st1 ltac:(lia)) st2. fin.
+Qed.
+
+Lemma T_idents_rest : forall fuel acc st, (2 * msr st + 1 <= fuel)%nat -> G st 0 (idents_rest fuel acc st).
+Proof.
+  induction fuel as [|f IH]; intros acc st Hf; [lia|]. cbn [idents_rest].
+  destruct (is st KComma) eqn:E; cbn [negb]; [|fin]. rdne st st1.
+  destruct (is st1 KIdent) eqn:E1; cbn [negb]; [|fin]. rdne st1 st2.
+  use (IH (acc ++ [txt st1]) st2 ltac:(lia)) st3. fin.
+Qed.
+
+Lemma T_parse_idents : forall fuel st, (2 * msr st + 1 <= fuel)%nat -> G st 1 (parse_idents fuel st).
+Proof.
+  intros fuel st Hf. unfold parse_idents. destruct (is st KIdent) eqn:E; cbn [negb]; [|fin].
+  rdne st st1. use (T_idents_rest fuel [txt st] st1 ltac:(lia)) st2. fin.
+Qed.
+
+Lemma T_parse_name : forall st, G st 1 (parse_name st).
+Proof.
+  intros st. unfold parse_name. destruct (is st KIdent || is st KReserved && kw st "__cedar" || is st KString) eqn:E; [|fin].
+  assert (is st KEOF = false).
+  { apply orb_true_iff in E. destruct E as [E|E]; [|exact (not_eof st _ E ltac:(discriminate))]. apply pso_not_eof. exact E. }
+  rdne st st1. fin.
+Qed.
+
+Lemma T_names_rest : forall fuel acc st, (2 * msr st + 1 <= fuel)%nat -> G st 0 (names_rest fuel acc st).
+Proof.
+  induction fuel as [|f IH]; intros acc st Hf; [lia|]. cbn [names_rest].
+  destruct (is st KComma) eqn:E; cbn [negb]; [|fin]. rdne st st1. use (T_parse_name st1) st2.
+  match goal with |- G _ _ (names_rest f (acc ++ [?x]) st2) => use (IH (acc ++ [x]) st2 ltac:(lia)) st3 end. fin.
+Qed.
+
+Lemma T_parse_names : forall fuel st, (2 * msr st + 1 <= fuel)%nat -> G st 1 (parse_names fuel st).
+Proof.
+  intros fuel st Hf. unfold parse_names. use (T_parse_name st) st1.
+  match goal with |- G _ _ (names_rest fuel ?a st1) => use (T_names_rest fuel a st1 ltac:(lia)) st2 end. fin.
+Qed.
+
+Lemma T_etl : forall fuel acc st, (2 * msr st + 2 <= fuel)%nat -> G st 0 (entity_types_loop fuel acc st).
+Proof.
+  induction fuel as [|f IH]; intros acc st Hf; [lia|]. cbn [entity_types_loop].
+  destruct (is st KRBracket) eqn:E; [rdne st st1; fin|].
+  use (T_parse_path f st ltac:(lia)) st1.
+  destruct (is st1 KComma) eqn:E1.
+  - rdne st1 st2. match goal with |- G _ _ (entity_types_loop f ?a st2) => use (IH a st2 ltac:(lia)) st3 end. fin.
+  - destruct (is st1 KRBracket); cbn [negb]; [|fin].
+    match goal with |- G _ _ (entity_types_loop f ?a st1) => use (IH a st1 ltac:(lia)) st3 end. fin.
+Qed.
+
+Lemma T_parse_entity_types : forall fuel st, (2 * msr st + 2 <= fuel)%nat -> G st 1 (parse_entity_types fuel st).
+Proof.
+  intros fuel st Hf. unfold parse_entity_types. destruct (is st KLBracket) eqn:E.
+  - rdne st st1. use (T_etl fuel [] st1 ltac:(lia)) st2. fin.
+  - use (T_parse_path fuel st ltac:(lia)) st1. fin.
+Qed.
+
+Lemma T_parse_qual_name : forall fuel st, (2 * msr st + 1 <= fuel)%nat -> G st 1 (parse_qual_name fuel st).
+Proof.
+  intros fuel st Hf. unfold parse_qual_name. destruct (is st KString) eqn:E; [rdne st st1; fin|].
+  pose proof (T_parse_path_for_ref fuel st Hf) as F. revert F.
+  destruct (parse_path_for_ref fuel st) as [[[[path s] q] st1]| | |]; cbn [G sbind]; intros F; try exact I; try contradiction.
+  destruct q; fin.
+Qed.
+
+Lemma T_apl : forall fuel acc st, (2 * msr st + 2 <= fuel)%nat -> G st 0 (action_parents_loop fuel acc st).
+Proof.
+  induction fuel as [|f IH]; intros acc st Hf; [lia|]. cbn [action_parents_loop].
+  destruct (is st KRBracket) eqn:E; [rdne st st1; fin|].
+  use (T_parse_qual_name f st ltac:(lia)) st1.
+  destruct (is st1 KComma) eqn:E1.
+  - rdne st1 st2. match goal with |- G _ _ (action_parents_loop f ?a st2) => use (IH a st2 ltac:(lia)) st3 end. fin.
+  - destruct (is st1 KRBracket); cbn [negb]; [|fin].
+    match goal with |- G _ _ (action_parents_loop f ?a st1) => use (IH a st1 ltac:(lia)) st3 end. fin.
+Qed.
+
+Lemma T_parse_action_parents : forall fuel st, (2 * msr st + 2 <= fuel)%nat -> G st 1 (parse_action_parents fuel st).
+Proof.
+  intros fuel st Hf. unfold parse_action_parents. destruct (is st KLBracket) eqn:E.
+  - rdne st st1. use (T_apl fuel [] st1 ltac:(lia)) st2. fin.
+  - use (T_parse_qual_name fuel st ltac:(lia)) st1. fin.
+Qed.
+
+Lemma T_types : forall fuel,
+  (forall st, (2 * msr st + 2 <= fuel)%nat -> G st 1 (parse_type fuel st))
+  /\ (forall st, (2 * msr st + 1 <= fuel)%nat -> G st 1 (parse_record_type fuel st))
+  /\ (forall rec st, (2 * msr st + 2 <= fuel)%nat -> G st 0 (record_loop fuel rec st)).
+Proof.
+  induction fuel as [|f [IHt [IHr IHl]]]; [repeat split; intros; lia|]. repeat split.
+  - intros st Hf. cbn [parse_type]. destruct (is st KLBrace) eqn:E.
+    { use (IHr st ltac:(lia)) st1. fin. }
+    destruct (is st KIdent && kw st "Set") eqn:E1.
+    + apply andb_true_iff in E1. destruct E1 as [E1 _]. rdne st st1.
+      use (T_expect KLAngle st1 ltac:(discriminate)) st2. use (IHt st2 ltac:(lia)) st3.
+      use (T_expect KRAngle st3 ltac:(discriminate)) st4. fin.
+    + use (T_parse_path f st ltac:(lia)) st1. fin.
+  - intros st Hf. cbn [parse_record_type]. use (T_expect KLBrace st ltac:(discriminate)) st1. use (IHl [] st1 ltac:(lia)) st2. fin.
+  - intros rec st Hf. cbn [record_loop]. destruct (is st KRBrace) eqn:E; [rdne st st1; fin|].
+    destruct (is st KEOF) eqn:E0; [fin|].
+    use (T_annots f [] st ltac:(lia)) st1. use (T_parse_name st1) st2.
+    destruct (is st2 KQuestion) eqn:E2.
+    + rdne st2 st3. use (T_expect KColon st3 ltac:(discriminate)) st4. use (IHt st4 ltac:(lia)) st5. use (T_opt_comma st5) st6.
+      match goal with |- G _ _ (record_loop f ?r st6) => use (IHl r st6 ltac:(lia)) st7 end. fin.
+    + cbn [sbind]. use (T_expect KColon st2 ltac:(discriminate)) st4. use (IHt st4 ltac:(lia)) st5. use (T_opt_comma st5) st6.
+      match goal with |- G _ _ (record_loop f ?r st6) => use (IHl r st6 ltac:(lia)) st7 end. fin.
+Qed.
+
+Lemma T_parse_type : forall fuel st, (2 * msr st + 2 <= fuel)%nat -> G st 1 (parse_type fuel st).
+Proof. intros fuel. apply (T_types fuel). Qed.
+Lemma T_parse_record_type : forall fuel st, (2 * msr st + 1 <= fuel)%nat -> G st 1 (parse_record_type fuel st).
+Proof. intros fuel. apply (T_types fuel). Qed.
+
+Lemma T_applies_loop : forall fuel pr rs cx st, (2 * msr st + 1 <= fuel)%nat -> G st 0 (applies_loop fuel pr rs cx st).
+Proof.
+  induction fuel as [|f IH]; intros pr rs cx st Hf; [lia|]. cbn [applies_loop].
+  destruct (is st KRBrace) eqn:E.
+  { destruct pr; [|fin]. destruct rs; [|fin]. rdne st st1. fin. }
+  destruct (is st KEOF) eqn:E0; [fin|]. destruct (is st KIdent) eqn:E1; cbn [negb]; [|fin].
+  destruct (kw st "principal").
+  { destruct pr; [fin|]. rdne st st1. use (T_expect KColon st1 ltac:(discriminate)) st2. use (T_parse_entity_types f st2 ltac:(lia)) st3.
+    match goal with |- G _ _ (match ?l with [] => _ | _ :: _ => _ end) => destruct l end; [fin|].
+    use (T_opt_comma st3) st4. match goal with |- G _ _ (applies_loop f ?a ?b ?c st4) => use (IH a b c st4 ltac:(lia)) st5 end. fin. }
+  destruct (kw st "resource").
+  { destruct rs; [fin|]. rdne st st1. use (T_expect KColon st1 ltac:(discriminate)) st2. use (T_parse_entity_types f st2 ltac:(lia)) st3.
+    match goal with |- G _ _ (match ?l with [] => _ | _ :: _ => _ end) => destruct l end; [fin|].
+    use (T_opt_comma st3) st4. match goal with |- G _ _ (applies_loop f ?a ?b ?c st4) => use (IH a b c st4 ltac:(lia)) st5 end. fin. }
+  destruct (kw st "context"); [|fin].
+  destruct cx; [fin|]. rdne st st1. use (T_expect KColon st1 ltac:(discriminate)) st2. use (T_parse_type f st2 ltac:(lia)) st3.
+  use (T_opt_comma st3) st4. match goal with |- G _ _ (applies_loop f ?a ?b ?c st4) => use (IH a b c st4 ltac:(lia)) st5 end. fin.
+Qed.
+
+Lemma T_parse_applies_to : forall fuel st, (2 * msr st + 1 <= fuel)%nat -> G st 1 (parse_applies_to fuel st).
+Proof.
+  intros fuel st Hf. unfold parse_applies_to. use (T_expect KLBrace st ltac:(discriminate)) st1.
+  use (T_applies_loop fuel None None None st1 ltac:(lia)) st2. fin.
+Qed.
+
+Lemma T_enum_values_loop : forall fuel acc st, (2 * msr st + 1 <= fuel)%nat -> G st 0 (enum_values_loop fuel acc st).
+Proof.
+  induction fuel as [|f IH]; intros acc st Hf; [lia|]. cbn [enum_values_loop].
+  destruct (is st KRBracket) eqn:E; [rdne st st1; fin|].
+  destruct (is st KString) eqn:E1; cbn [negb]; [|fin]. rdne st st1.
+  destruct (is st1 KComma) eqn:E2.
+  - rdne st1 st2. use (IH (acc ++ [txt st]) st2 ltac:(lia)) st3. fin.
+  - destruct (is st1 KRBracket); cbn [negb]; [|fin]. use (IH (acc ++ [txt st]) st1 ltac:(lia)) st3. fin.
+Qed.
+
+Lemma T_parse_enum_entity : forall fuel an names n st, (2 * msr st + 1 <= fuel)%nat -> G st 1 (parse_enum_entity fuel an names n st).
+Proof.
+  intros fuel an names n st Hf. unfold parse_enum_entity. use (T_expect KLBracket st ltac:(discriminate)) st1.
+  use (T_enum_values_loop fuel [] st1 ltac:(lia)) st2. use (T_expect KSemicolon st2 ltac:(discriminate)) st3.
+  match goal with |- G _ _ (match ?x with Some _ => _ | None => _ end) => destruct x end; fin.
+Qed.
+
+Lemma T_parse_entity : forall fuel an n st, (2 * msr st + 2 <= fuel)%nat -> G st 1 (parse_entity fuel an n st).
+Proof.
+  intros fuel an n st Hf. unfold parse_entity. use (T_parse_idents fuel st ltac:(lia)) st1.
+  destruct (is st1 KIdent && kw st1 "enum") eqn:E.
+  { apply andb_true_iff in E. destruct E as [E _]. rdne st1 st2. use (T_parse_enum_entity fuel an l n st2 ltac:(lia)) st3. fin. }
+  assert (H2 : forall (k : (list str * pst) -> spres (x_ns * pst)),
+               (forall ps st2, (msr st2 <= msr st1)%nat -> G st 1 (k (ps, st2))) ->
+               G st 1 (sbind (if is st1 KReserved && kw st1 "in" then st2 <- read_token st1;; parse_entity_types fuel st2 else SOk ([], st1)) k)).
+  { intros k Hk. destruct (is st1 KReserved && kw st1 "in") eqn:E1.
+    - apply andb_true_iff in E1. destruct E1 as [E1 _]. rdne st1 st2. use (T_parse_entity_types fuel st2 ltac:(lia)) st3. apply Hk. lia.
+    - cbn [sbind]. apply Hk. lia. }
+  apply H2. clear H2. intros ps st2 H2.
+  assert (H3 : forall (k : (option xrec * pst) -> spres (x_ns * pst)),
+               (forall sh st3, (msr st3 <= msr st2)%nat -> G st 1 (k (sh, st3))) ->
+               G st 1 (sbind (if is st2 KEquals then st3 <- read_token st2;; ' (fs, st4) <- parse_record_type fuel st3;; SOk (Some fs, st4)
+                              else if is st2 KLBrace then ' (fs, st4) <- parse_record_type fuel st2;; SOk (Some fs, st4) else SOk (None, st2)) k)).
+  { intros k Hk. destruct (is st2 KEquals) eqn:E1.
+    - rdne st2 st3. use (T_parse_record_type fuel st3 ltac:(lia)) st4. apply Hk. lia.
+    - destruct (is st2 KLBrace) eqn:E2.
+      + use (T_parse_record_type fuel st2 ltac:(lia)) st4. apply Hk. lia.
+      + cbn [sbind]. apply Hk. lia. }
+  apply H3. clear H3. intros sh st3 H3.
+  assert (H4 : forall (k : (option xty * pst) -> spres (x_ns * pst)),
+               (forall tg st4, (msr st4 <= msr st3)%nat -> G st 1 (k (tg, st4))) ->
+               G st 1 (sbind (if is st3 KIdent && kw st3 "tags" then st4 <- read_token st3;; ' (t, st5) <- parse_type fuel st4;; SOk (Some t, st5)
+                              else SOk (None, st3)) k)).
+  { intros k Hk. destruct (is st3 KIdent && kw st3 "tags") eqn:E1.
+    - apply andb_true_iff in E1. destruct E1 as [E1 _]. rdne st3 st4. use (T_parse_type fuel st4 ltac:(lia)) st5. apply Hk. lia.
+    - cbn [sbind]. apply Hk. lia. }
+  apply H4. clear H4. intros tg st4 H4.
+  use (T_expect KSemicolon st4 ltac:(discriminate)) st5.
+  match goal with |- G _ _ (match ?x with Some _ => _ | None => _ end) => destruct x end; fin.
+Qed.
+
+Lemma T_parse_action : forall fuel an n st, (2 * msr st + 2 <= fuel)%nat -> G st 1 (parse_action fuel an n st).
+Proof.
+  intros fuel an n st Hf. unfold parse_action. use (T_parse_names fuel st ltac:(lia)) st1.
+  assert (H2 : forall (k : (list (str * str) * pst) -> spres (x_ns * pst)),
+               (forall ps st2, (msr st2 <= msr st1)%nat -> G st 1 (k (ps, st2))) ->
+               G st 1 (sbind (if is st1 KReserved && kw st1 "in" then st2 <- read_token st1;; parse_action_parents fuel st2 else SOk ([], st1)) k)).
+  { intros k Hk. destruct (is st1 KReserved && kw st1 "in") eqn:E1.
+    - apply andb_true_iff in E1. destruct E1 as [E1 _]. rdne st1 st2. use (T_parse_action_parents fuel st2 ltac:(lia)) st3. apply Hk. lia.
+    - cbn [sbind]. apply Hk. lia. }
+  apply H2. clear H2. intros ps st2 H2.
+  assert (H3 : forall (k : (option x_applies * pst) -> spres (x_ns * pst)),
+               (forall ap st3, (msr st3 <= msr st2)%nat -> G st 1 (k (ap, st3))) ->
+               G st 1 (sbind (if is st2 KIdent && kw st2 "appliesTo" then st3 <- read_token st2;; ' (at_, st4) <- parse_applies_to fuel st3;; SOk (Some at_, st4)
+                              else SOk (None, st2)) k)).
+  { intros k Hk. destruct (is st2 KIdent && kw st2 "appliesTo") eqn:E1.
+    - apply andb_true_iff in E1. destruct E1 as [E1 _]. rdne st2 st3. use (T_parse_applies_to fuel st3 ltac:(lia)) st4. apply Hk. lia.
+    - cbn [sbind]. apply Hk. lia. }
+  apply H3. clear H3. intros ap st3 H3.
+  assert (H4 : forall (k : pst -> spres (x_ns * pst)),
+               (forall st4, (msr st4 <= msr st3)%nat -> G st 1 (k st4)) ->
+               G st 1 (sbind (if is st3 KIdent && kw st3 "attributes" then st4 <- read_token st3;; st5 <- expect KLBrace st4;; expect KRBrace st5 else SOk st3) k)).
+  { intros k Hk. destruct (is st3 KIdent && kw st3 "attributes") eqn:E1.
+    - apply andb_true_iff in E1. destruct E1 as [E1 _]. rdne st3 st4. use (T_expect KLBrace st4 ltac:(discriminate)) st5.
+      use (T_expect KRBrace st5 ltac:(discriminate)) st6. apply Hk. lia.
+    - cbn [sbind]. apply Hk. lia. }
+  apply H4. clear H4. intros st4 H4.
+  use (T_expect KSemicolon st4 ltac:(discriminate)) st5.
+  match goal with |- G _ _ (match ?x with Some _ => _ | None => _ end) => destruct x end; fin.
+Qed.
+
+Lemma T_parse_type_decl : forall fuel an n st, (2 * msr st + 2 <= fuel)%nat -> G st 1 (parse_type_decl fuel an n st).
+Proof.
+  intros fuel an n st Hf. unfold parse_type_decl. destruct (is st KIdent) eqn:E; cbn [negb]; [|fin].
+  destruct (is_reserved_type_name (txt st)); [fin|]. rdne st st1. use (T_expect KEquals st1 ltac:(discriminate)) st2.
+  use (T_parse_type fuel st2 ltac:(lia)) st3. use (T_expect KSemicolon st3 ltac:(discriminate)) st4.
+  destruct (has_key (txt st) (xs_commons n)); fin.
+Qed.
+
+Lemma T_parse_decl : forall fuel an n st, (2 * msr st + 2 <= fuel)%nat -> G st 1 (parse_decl fuel an n st).
+Proof.
+  intros fuel an n st Hf. unfold parse_decl. destruct (is st KIdent) eqn:E; cbn [negb]; [|fin].
+  destruct (kw st "entity"); [rdne st st1; use (T_parse_entity fuel an n st1 ltac:(lia)) st2; fin|].
+  destruct (kw st "action"); [rdne st st1; use (T_parse_action fuel an n st1 ltac:(lia)) st2; fin|].
+  destruct (kw st "type"); [rdne st st1; use (T_parse_type_decl fuel an n st1 ltac:(lia)) st2; fin|fin].
+Qed.
+
+Lemma T_namespace_loop : forall fuel inner st, (2 * msr st + 3 <= fuel)%nat -> G st 0 (namespace_loop fuel inner st).
+Proof.
+  induction fuel as [|f IH]; intros inner st Hf; [lia|]. cbn [namespace_loop].
+  destruct (is st KRBrace) eqn:E; [rdne st st1; fin|]. destruct (is st KEOF) eqn:E0; [fin|].
+  use (T_annots f [] st ltac:(lia)) st1.
+  match goal with |- G _ _ (sbind (parse_decl f ?a inner st1) _) => use (T_parse_decl f a inner st1 ltac:(lia)) st2 end.
+  match goal with |- G _ _ (namespace_loop f ?i st2) => use (IH i st2 ltac:(lia)) st3 end. fin.
+Qed.
+
+Lemma T_parse_namespace : forall fuel an st, (2 * msr st + 3 <= fuel)%nat -> G st 1 (parse_namespace fuel an st).
+Proof.
+  intros fuel an st Hf. unfold parse_namespace. use (T_parse_path fuel st ltac:(lia)) st1.
+  match goal with |- G _ _ (if ?c then _ else _) => destruct c end; [fin|].
+  use (T_expect KLBrace st1 ltac:(discriminate)) st2. use (T_namespace_loop fuel empty_ns st2 ltac:(lia)) st3. fin.
+Qed.
+
+Definition Gs (r : spres x_schema) : Prop := match r with SFuel => False | _ => True end.
+
+Lemma T_schema_loop : forall fuel bare nss st, (2 * msr st + 3 <= fuel)%nat -> Gs (schema_loop fuel bare nss st).
+Proof.
+  induction fuel as [|f IH]; intros bare nss st Hf; [lia|]. cbn [schema_loop].
+  destruct (is st KEOF) eqn:E0; [exact I|].
+  pose proof (T_annots f [] st ltac:(lia)) as F. revert F.
+  destruct (parse_annotations f [] st) as [[an st1]| | |]; cbn [G sbind]; intros F; try exact I; try contradiction.
+  destruct (is st1 KIdent && kw st1 "namespace") eqn:E1.
+  - apply andb_true_iff in E1. destruct E1 as [E1 _].
+    pose proof (T_read st1) as F1. rewrite (not_eof st1 _ E1 ltac:(discriminate)) in F1. revert F1.
+    destruct (read_token st1) as [st2| | |]; cbn [Gp sbind]; intros F1; try exact I; try contradiction.
+    pose proof (T_parse_namespace f an st2 ltac:(lia)) as F2. revert F2.
+    destruct (parse_namespace f an st2) as [[[name ns] st3]| | |]; cbn [G sbind]; intros F2; try exact I; try contradiction.
+    destruct (has_key name nss); [exact I|]. apply IH. lia.
+  - pose proof (T_parse_decl f an bare st1 ltac:(lia)) as F2. revert F2.
+    destruct (parse_decl f an bare st1) as [[bare' st2]| | |]; cbn [G sbind]; intros F2; try exact I; try contradiction.
+    apply IH. lia.
+Qed.
+
+(* C10 for the schema text parser: the fuel handed out by ParseSchema is always enough *)
+Theorem parse_schema_total : forall src, parse_schema src <> SFuel.
+Proof.
+  intros src. unfold parse_schema.
+  pose proof (T_read {| p_tok := mk_tok KEOF []; p_src := src |}) as F. revert F.
+  destruct (read_token {| p_tok := mk_tok KEOF []; p_src := src |}) as [st| | |]; cbn [Gp sbind]; intros F; try discriminate; try contradiction.
+  unfold msr at 2 in F. cbn [p_src p_tok is k_type mk_tok ttype_beq] in F.
+  pose proof (T_schema_loop (parse_schema_fuel (length src)) empty_ns [] st ltac:(unfold parse_schema_fuel; lia)) as H.
+  intros E. rewrite E in H. exact H.
+Qed.
+
+
+Print Assumptions parse_schema_total.
